@@ -313,11 +313,11 @@ Lemma leaf_loop_ok fs : forall lm st ys st',
   HI st' /\ ext (s_heap st) (s_heap st') /\ Forall2 (leaf_good (s_heap st')) fs ys /\ s_memo st' = s_memo st.
 Proof.
   induction fs as [|x r IH]; intros lm st ys st' H Hsrc Hlm Hl; simpl in Hl.
-  - injection Hl as <- <-. repeat split; auto using ext_refl.
+  - injection Hl as <- <-. split; [auto|]. split; [apply ext_refl|]. split; [constructor|reflexivity].
   - inversion Hsrc as [|? ? [nd0 Hx0] Hr]; subst.
     destruct (lookup x lm) as [y|] eqn:El.
     + destruct (leaf_loop c r lm st) as [[ys1 st1]|] eqn:E1; [|discriminate]. injection Hl as <- <-.
-      destruct (IH lm st ys1 st1 H Hr Hlm E1) as (H1 & X1 & F1 & M1). repeat split; auto.
+      destruct (IH lm st ys1 st1 H Hr Hlm E1) as (H1 & X1 & F1 & M1). split; [auto|]. split; [auto|]. split; [|auto].
       constructor; auto. eapply leaf_good_stable; eauto.
     + destruct (nth_error (s_heap st) x) as [nd|] eqn:Ex; [|discriminate].
       destruct (conv_leaf c x nd st) as [[y st1]|] eqn:Ec; [|discriminate].
@@ -330,4 +330,369 @@ Proof.
       destruct (IH _ st1 ys2 st2 H1 Hr Hlm1 E2) as (H2 & X2 & F2 & M2).
       split; auto. split; [eapply ext_trans; eauto|]. split; [|congruence].
       constructor; auto. eapply leaf_good_stable; eauto.
+Qed.
+
+(* ---------------------------------------------------------------------------------------------- *)
+(* the containers                                                                                  *)
+(* ---------------------------------------------------------------------------------------------- *)
+Hypothesis Hwf : wf_heap h0.
+
+Lemma lt_nth_error {A} (l : list A) i : i < length l -> exists x, nth_error l i = Some x.
+Proof. intros H. destruct (nth_error l i) eqn:E; eauto. apply nth_error_None in E. lia. Qed.
+
+Lemma children_src d fs : (nth_error h0 d = Some (NMixin fs) \/ nth_error h0 d = Some (NSpatial fs)) ->
+  Forall (fun x => x < d /\ exists nd, nth_error h0 x = Some nd) fs.
+Proof.
+  intros H. pose proof (Hwf d fs H) as Hlt.
+  assert (Hd : d < length h0) by (destruct H as [H|H]; eapply nth_error_Some_lt; eauto).
+  eapply Forall_impl; [|exact Hlt]. intros x Hx. simpl in Hx. split; auto. apply lt_nth_error. lia.
+Qed.
+
+Definition conv_spec (convf : nat -> state -> option (nat * state)) (x : nat) : Prop :=
+  forall st y st', (exists nd, nth_error h0 x = Some nd) -> HI st -> MI st -> convf x st = Some (y, st') ->
+    HI st' /\ ext (s_heap st) (s_heap st') /\ MI st' /\ mext (s_memo st) (s_memo st')
+    /\ (forall k, x <= k -> lookup k (s_memo st') = lookup k (s_memo st))
+    /\ good (s_memo st') (s_heap st') x y.
+
+Lemma HI_memo st m : HI st -> HI (mkS (s_heap st) m (s_next st)).
+Proof. intros [a b d e]. constructor; simpl; auto. Qed.
+
+Lemma field_loop_ok convf bound : (forall x, x < bound -> conv_spec convf x) ->
+  forall fs st ys st', Forall (fun x => x < bound /\ exists nd, nth_error h0 x = Some nd) fs ->
+  HI st -> MI st -> field_loop convf fs st = Some (ys, st') ->
+  HI st' /\ ext (s_heap st) (s_heap st') /\ MI st' /\ mext (s_memo st) (s_memo st')
+  /\ (forall k, bound <= k -> lookup k (s_memo st') = lookup k (s_memo st))
+  /\ Forall2 (fun a b => lookup a (s_memo st') = Some b) fs ys.
+Proof.
+  intros Hspec. induction fs as [|x r IH]; intros st ys st' Hfs H HM Hl; simpl in Hl.
+  - injection Hl as <- <-. split; [auto|]. split; [apply ext_refl|]. split; [auto|]. split; [apply mext_refl|].
+    split; [auto|constructor].
+  - inversion Hfs as [|? ? [Hxb Hx0] Hr]; subst.
+    destruct (lookup x (s_memo st)) as [y|] eqn:El.
+    + destruct (field_loop convf r st) as [[ys1 st1]|] eqn:E1; [|discriminate]. injection Hl as <- <-.
+      destruct (IH st ys1 st1 Hr H HM E1) as (H1 & X1 & M1 & Me1 & K1 & F1).
+      split; [auto|]. split; [auto|]. split; [auto|]. split; [auto|]. split; [auto|]. constructor; auto.
+    + destruct (convf x st) as [[y st1]|] eqn:Ec; [|discriminate].
+      destruct (field_loop convf r (add_memo x y st1)) as [[ys2 st2]|] eqn:E2; [|discriminate]. injection Hl as <- <-.
+      destruct (Hspec x Hxb st y st1 Hx0 H HM Ec) as (H1 & X1 & M1 & Me1 & K1 & G1).
+      assert (Hnone : lookup x (s_memo st1) = None) by (rewrite K1 by lia; exact El).
+      assert (Hadd : mext (s_memo st1) ((x, y) :: s_memo st1)) by (apply mext_add; exact Hnone).
+      assert (H1' : HI (add_memo x y st1)) by (apply HI_memo; exact H1).
+      assert (M1' : MI (add_memo x y st1)).
+      { intros d y' Hd. unfold add_memo in *. simpl in *. destruct (Nat.eq_dec x d) as [->|Hne].
+        - rewrite Nat.eqb_refl in Hd. injection Hd as <-. eapply good_stable; eauto using ext_refl.
+        - destruct (Nat.eqb x d) eqn:Ee; [apply Nat.eqb_eq in Ee; contradiction|].
+          eapply good_stable; [apply M1; exact Hd|apply ext_refl|exact Hadd]. }
+      destruct (IH (add_memo x y st1) ys2 st2 Hr H1' M1' E2) as (H2 & X2 & M2 & Me2 & K2 & F2).
+      unfold add_memo in X2, Me2, K2; cbn [s_heap s_memo s_next] in X2, Me2, K2.
+      split; [auto|]. split; [eapply ext_trans; eauto|]. split; [auto|].
+      split; [eapply mext_trans; [exact Me1|eapply mext_trans; [exact Hadd|exact Me2]]|].
+      split.
+      * intros k Hk. rewrite K2 by lia. rewrite lookup_cons_ne by lia. apply K1. lia.
+      * constructor; auto. apply Me2. apply lookup_cons_eq.
+Qed.
+
+Lemma conv_ok fuel : forall x, conv_spec (conv fuel c) x.
+Proof.
+  induction fuel as [|f IH]; intros x st y st' [nd0 Hx0] H HM Hc; simpl in Hc; [discriminate|].
+  pose proof (hi_old _ H _ _ Hx0) as Hnow. pose proof (hi_len _ H) as Hlen.
+  destruct nd0 as [t|fs|fs|ts|ct m]; simpl in Hnow.
+  - rewrite Hnow in Hc. destruct (conv_leaf_ok st x _ _ y st' H Hx0 Hnow Hc) as (H1 & X1 & G1 & M1).
+    split; [auto|]. split; [auto|]. split; [|split; [rewrite M1; apply mext_refl|split; [intros; now rewrite M1|]]].
+    + intros d y' Hd. rewrite M1 in *. eapply good_stable; [apply HM; exact Hd|exact X1|apply mext_refl].
+    + unfold good. rewrite Hx0. exact G1.
+  - (* mixin *)
+    rewrite Hnow in Hc.
+    destruct (field_loop (conv f c) fs st) as [[ys st1]|] eqn:El; [|discriminate]. injection Hc as <- <-.
+    pose proof (children_src x fs (or_introl Hx0)) as Hch.
+    destruct (field_loop_ok (conv f c) x (fun x' _ => IH x') fs st ys st1 Hch H HM El) as (H1 & X1 & M1 & Me1 & K1 & F1).
+    pose proof (hi_len _ H1) as Hlen1.
+    split; [apply HI_app; auto|]. simpl.
+    split; [eapply ext_trans; [exact X1|apply ext_app]|].
+    split; [|split; [exact Me1|split; [exact K1|]]].
+    + intros d y' Hd. simpl in *. eapply good_stable; [apply M1; exact Hd|apply ext_app|apply mext_refl].
+    + unfold good. rewrite Hx0. exists ys. rewrite nth_error_snoc. split; [auto|]. split; [exact Hlen1|exact F1].
+  - (* spatial *)
+    rewrite Hnow in Hc.
+    destruct (leaf_loop c fs [] st) as [[ys st1]|] eqn:El; [|discriminate]. injection Hc as <- <-.
+    pose proof (children_src x fs (or_intror Hx0)) as Hch.
+    assert (Hch' : Forall (fun x => exists nd, nth_error h0 x = Some nd) fs)
+      by (eapply Forall_impl; [|exact Hch]; intros a [_ Ha]; exact Ha).
+    destruct (leaf_loop_ok fs [] st ys st1 H Hch' ltac:(intros a b Hab; discriminate) El) as (H1 & X1 & F1 & M1).
+    pose proof (hi_len _ H1) as Hlen1.
+    split; [apply HI_app; auto|]. simpl.
+    split; [eapply ext_trans; [exact X1|apply ext_app]|].
+    split; [|split; [rewrite M1; apply mext_refl|split; [intros; now rewrite M1|]]].
+    + intros d y' Hd. simpl in *. rewrite M1 in *.
+      eapply good_stable; [apply HM; exact Hd|eapply ext_trans; [exact X1|apply ext_app]|apply mext_refl].
+    + unfold good. rewrite Hx0. exists ys. rewrite nth_error_snoc. split; [auto|]. split; [exact Hlen1|].
+      eapply Forall2_impl; [|exact F1]. intros a b Hab. eapply leaf_good_stable; [exact Hab|apply ext_app].
+  - (* module *)
+    destruct Hnow as (ts1 & Hnow & Hpre). rewrite Hnow in Hc.
+    destruct (conv_leaf_ok st x _ _ y st' H Hx0 Hnow Hc) as (H1 & X1 & G1 & M1).
+    split; [auto|]. split; [auto|]. split; [|split; [rewrite M1; apply mext_refl|split; [intros; now rewrite M1|]]].
+    + intros d y' Hd. rewrite M1 in *. eapply good_stable; [apply HM; exact Hd|exact X1|apply mext_refl].
+    + unfold good. rewrite Hx0. exact G1.
+  - rewrite Hnow in Hc. destruct (conv_leaf_ok st x _ _ y st' H Hx0 Hnow Hc) as (H1 & X1 & G1 & M1).
+    split; [auto|]. split; [auto|]. split; [|split; [rewrite M1; apply mext_refl|split; [intros; now rewrite M1|]]].
+    + intros d y' Hd. rewrite M1 in *. eapply good_stable; [apply HM; exact Hd|exact X1|apply mext_refl].
+    + unfold good. rewrite Hx0. exact G1.
+Qed.
+
+(* ---------------------------------------------------------------------------------------------- *)
+(* the whole call                                                                                  *)
+(* ---------------------------------------------------------------------------------------------- *)
+Lemma top_ok root r st' : root < length h0 -> to_top c h0 nsb root = Some (r, st') ->
+  HI st' /\ MI st' /\ good (s_memo st') (s_heap st') root r.
+Proof.
+  intros Hr Ht. unfold to_top in Ht.
+  assert (H0 : HI (mkS h0 [] nsb)).
+  { constructor; simpl; auto.
+    intros i n Hi. destruct n; simpl; auto. eexists; split; eauto. apply Forall2_refl_eq. intros; left; reflexivity. }
+  assert (M0 : MI (mkS h0 [] nsb)) by (intros d y Hd; discriminate).
+  destruct (conv_ok _ root _ _ _ (lt_nth_error _ _ Hr) H0 M0 Ht) as (H1 & _ & M1 & _ & _ & G1). auto.
+Qed.
+
+Lemma leaf_good_good M hp a b : leaf_good hp a b -> good M hp a b.
+Proof. unfold good, leaf_good. destruct (nth_error h0 a) as [[?|?|?|?|? ?]|]; auto; contradiction. Qed.
+
+Section Final.
+Variable M : list (nat * nat).
+Variable H : heap.
+Hypothesis HMI : forall d y, lookup d M = Some y -> good M H d y.
+
+Lemma resolve_good p : forall d y x, good M H d y -> resolve h0 d p = Some x ->
+  exists z, resolve H y p = Some z /\ good M H x z.
+Proof.
+  induction p as [|i q IH]; intros d y x Hg Hr; simpl in Hr.
+  - injection Hr as <-. exists y. split; auto.
+  - unfold good in Hg. destruct (nth_error h0 d) as [[t|fs|fs|ts|ct m]|] eqn:Ed; try discriminate.
+    + destruct (nth_error fs i) as [a|] eqn:Ea; [|discriminate].
+      destruct Hg as (ys & Hy & _ & HF). destruct (Forall2_nth_l _ _ _ _ _ HF Ea) as (b & Hb & Hab).
+      destruct (IH a b x (HMI _ _ Hab) Hr) as (z & Hz & Hgz). exists z. split; auto. simpl. now rewrite Hy, Hb.
+    + destruct (nth_error fs i) as [a|] eqn:Ea; [|discriminate].
+      destruct Hg as (ys & Hy & _ & HF). destruct (Forall2_nth_l _ _ _ _ _ HF Ea) as (b & Hb & Hab).
+      destruct (IH a b x (leaf_good_good _ _ _ _ Hab) Hr) as (z & Hz & Hgz). exists z. split; auto. simpl. now rewrite Hy, Hb.
+Qed.
+
+Lemma resolve_good_conv p : forall d y z, good M H d y -> resolve H y p = Some z ->
+  exists x, resolve h0 d p = Some x /\ good M H x z.
+Proof.
+  induction p as [|i q IH]; intros d y z Hg Hr; simpl in Hr.
+  - injection Hr as <-. exists d. split; auto.
+  - unfold good in Hg. destruct (nth_error h0 d) as [[t|fs|fs|ts|ct m]|] eqn:Ed.
+    + unfold leaf_good in Hg. rewrite Ed in Hg. destruct Hg as (t' & Hy & _). rewrite Hy in Hr. discriminate.
+    + destruct Hg as (ys & Hy & _ & HF). rewrite Hy in Hr. destruct (nth_error ys i) as [b|] eqn:Eb; [|discriminate].
+      destruct (Forall2_nth_r _ _ _ _ _ HF Eb) as (a & Ha & Hab).
+      destruct (IH a b z (HMI _ _ Hab) Hr) as (x & Hx & Hgx). exists x. split; auto. simpl. now rewrite Ed, Ha.
+    + destruct Hg as (ys & Hy & _ & HF). rewrite Hy in Hr. destruct (nth_error ys i) as [b|] eqn:Eb; [|discriminate].
+      destruct (Forall2_nth_r _ _ _ _ _ HF Eb) as (a & Ha & Hab).
+      destruct (IH a b z (leaf_good_good _ _ _ _ Hab) Hr) as (x & Hx & Hgx). exists x. split; auto. simpl. now rewrite Ed, Ha.
+    + unfold leaf_good in Hg. rewrite Ed in Hg. destruct Hg as (t' & Hy & _). rewrite Hy in Hr. discriminate.
+    + unfold leaf_good in Hg. rewrite Ed in Hg. destruct Hg as (Hy & _). rewrite Hy in Hr. discriminate.
+    + unfold leaf_good in Hg. rewrite Ed in Hg. contradiction.
+Qed.
+
+(* paths through containers that share the memo end in the memo's image *)
+Lemma resolve_g_memo p : forall d y x, p <> [] -> good M H d y -> resolve_g h0 d p = Some x ->
+  exists z, lookup x M = Some z /\ resolve H y p = Some z.
+Proof.
+  induction p as [|i q IH]; intros d y x Hne Hg Hr; [congruence|]. simpl in Hr.
+  destruct (nth_error h0 d) as [[t|fs|fs|ts|ct m]|] eqn:Ed; try discriminate.
+  destruct (nth_error fs i) as [a|] eqn:Ea; [|discriminate].
+  unfold good in Hg. rewrite Ed in Hg. destruct Hg as (ys & Hy & _ & HF).
+  destruct (Forall2_nth_l _ _ _ _ _ HF Ea) as (b & Hb & Hab).
+  destruct q as [|j q'].
+  - simpl in Hr. injection Hr as <-. exists b. split; auto. simpl. now rewrite Hy, Hb.
+  - destruct (IH a b x ltac:(discriminate) (HMI _ _ Hab) Hr) as (z & Hz & Hrz).
+    exists z. split; auto. remember (j :: q') as qq. simpl. now rewrite Hy, Hb.
+Qed.
+End Final.
+End Conv.
+
+(* ---------------------------------------------------------------------------------------------- *)
+(* statements                                                                                      *)
+(* ---------------------------------------------------------------------------------------------- *)
+Definition tens_conv (c : cfg) (t t' : tens) : Prop :=
+  t_kind t' = t_kind t /\ t_content t' = t_content t /\ t_prec t' = target_prec c t.
+
+(* what the converted object at the same field path looks like *)
+Definition node_conv (c : cfg) (n n' : node) : Prop :=
+  match n, n' with
+  | NTensor t, NTensor t' => tens_conv c t t'
+  | NModule ts, NModule ts' => Forall2 (tens_conv c) ts ts'
+  | NPlain ct m, NPlain ct' m' => ct' = ct /\ m' = m
+  | NMixin fs, NMixin ys => length ys = length fs
+  | NSpatial fs, NSpatial ys => length ys = length fs
+  | _, _ => False
+  end.
+
+Lemma Forall2_length' {A B} (R : A -> B -> Prop) l l' : Forall2 R l l' -> length l' = length l.
+Proof. induction 1; simpl; auto. Qed.
+
+Lemma good_node_conv c h ns M H d y nd : good c h ns M H d y -> nth_error h d = Some nd ->
+  exists nd', nth_error H y = Some nd' /\ node_conv c nd nd'.
+Proof.
+  unfold good, leaf_good. intros Hg Hd. rewrite Hd in Hg. destruct nd as [t|fs|fs|ts|ct m].
+  - destruct Hg as (t' & Hy & (Hk & Hc & Hp & _) & _). exists (NTensor t'). split; auto. simpl. unfold tens_conv; auto.
+  - destruct Hg as (ys & Hy & _ & HF). exists (NMixin ys). split; auto. simpl. eapply Forall2_length'; eauto.
+  - destruct Hg as (ys & Hy & _ & HF). exists (NSpatial ys). split; auto. simpl. eapply Forall2_length'; eauto.
+  - destruct Hg as (ts' & Hy & HF & _). exists (NModule ts'). split; auto. simpl.
+    eapply Forall2_impl; [|exact HF]. intros a b (Hk & Hc & Hp & _). unfold tens_conv; auto.
+  - destruct Hg as (Hy & _). exists (NPlain ct m). split; auto. simpl; auto.
+Qed.
+
+Theorem to_top_structure c h ns root r st p x nd :
+  wf_heap h -> root < length h -> to_top c h ns root = Some (r, st) ->
+  resolve h root p = Some x -> nth_error h x = Some nd ->
+  exists z nd', resolve (s_heap st) r p = Some z /\ nth_error (s_heap st) z = Some nd' /\ node_conv c nd nd'.
+Proof.
+  intros Hwf Hr Ht Hp Hx. destruct (top_ok c h ns Hwf root r st Hr Ht) as (HH & HM & HG).
+  destruct (resolve_good c h ns _ _ HM p root r x HG Hp) as (z & Hz & Hgz).
+  destruct (good_node_conv _ _ _ _ _ _ _ _ Hgz Hx) as (nd' & Hn & Hc). eauto.
+Qed.
+
+Theorem to_top_alias c h ns root r st p q x :
+  wf_heap h -> root < length h -> to_top c h ns root = Some (r, st) -> p <> [] -> q <> [] ->
+  resolve_g h root p = Some x -> resolve_g h root q = Some x ->
+  exists z, resolve (s_heap st) r p = Some z /\ resolve (s_heap st) r q = Some z.
+Proof.
+  intros Hwf Hr Ht Hp Hq Rp Rq. destruct (top_ok c h ns Hwf root r st Hr Ht) as (HH & HM & HG).
+  destruct (resolve_g_memo c h ns _ _ HM p root r x Hp HG Rp) as (z & Hz & Hrz).
+  destruct (resolve_g_memo c h ns _ _ HM q root r x Hq HG Rq) as (z' & Hz' & Hrz').
+  assert (z' = z) by congruence. subst. eauto.
+Qed.
+
+Lemma Forall2_In_r {A B} (R : A -> B -> Prop) l l' b : Forall2 R l l' -> In b l' -> exists a, In a l /\ R a b.
+Proof. induction 1; simpl; intros Hi; [contradiction|]. destruct Hi as [<-|Hi]; eauto. destruct (IHForall2 Hi) as (a & ? & ?). eauto. Qed.
+
+(* copy=True: whatever is reachable in the result is new: tensors (also inside modules) live in storages that did not
+   exist before, mutable plain objects, modules and containers are new objects *)
+Theorem to_top_fresh c h ns root r st p z :
+  wf_heap h -> root < length h -> c_copy c = true -> to_top c h ns root = Some (r, st) ->
+  resolve (s_heap st) r p = Some z ->
+  match nth_error (s_heap st) z with
+  | Some (NTensor t') => ns <= t_storage t' /\ length h <= z
+  | Some (NModule ts') => Forall (fun t' => ns <= t_storage t') ts' /\ length h <= z
+  | Some (NPlain _ true) => length h <= z
+  | Some (NMixin _) | Some (NSpatial _) => length h <= z
+  | _ => True
+  end.
+Proof.
+  intros Hwf Hr Hc Ht Hp. destruct (top_ok c h ns Hwf root r st Hr Ht) as (HH & HM & HG).
+  destruct (resolve_good_conv c h ns _ _ HM p root r z HG Hp) as (x & Hx & Hgx).
+  unfold good, leaf_good in Hgx. destruct (nth_error h x) as [[t|fs|fs|ts|ct m]|] eqn:Ex; try contradiction.
+  - destruct Hgx as (t' & Hy & (_ & _ & _ & Hs) & _ & Hn). rewrite Hy. split; auto.
+  - destruct Hgx as (ys & Hy & Hn & _). rewrite Hy. exact Hn.
+  - destruct Hgx as (ys & Hy & Hn & _). rewrite Hy. exact Hn.
+  - destruct Hgx as (ts' & Hy & HF & _ & Hn). rewrite Hy. split; [|auto].
+    apply Forall_forall. intros t' Hin. destruct (Forall2_In_r _ _ _ _ HF Hin) as (a & _ & (_ & _ & _ & Hs)). auto.
+  - destruct Hgx as (Hy & _ & Hn). rewrite Hy. destruct m; auto.
+Qed.
+
+Theorem to_top_source_untouched c h ns root r st :
+  wf_heap h -> root < length h -> to_top c h ns root = Some (r, st) ->
+  forall i n, nth_error h i = Some n -> (c_copy c = true \/ forall ts, n <> NModule ts) ->
+  nth_error (s_heap st) i = Some n.
+Proof.
+  intros Hwf Hr Ht i n Hi Hor. destruct (top_ok c h ns Hwf root r st Hr Ht) as (HH & _ & _).
+  destruct Hor as [Hc|Hn].
+  - exact (hi_copy _ _ _ _ HH Hc i n Hi).
+  - pose proof (hi_old _ _ _ _ HH i n Hi) as Hnow. destruct n; simpl in Hnow; auto. exfalso. eapply Hn; eauto.
+Qed.
+
+(* ---- in terms of the public calls ---------------------------------------------------------------- *)
+Lemma call_top_inv a h ns root r h' : call_top a h ns root = Some (r, h') ->
+  exists st, to_top (parse a) h ns root = Some (r, st) /\ s_heap st = h'.
+Proof.
+  unfold call_top. destruct (to_top (parse a) h ns root) as [[r0 st]|]; [|discriminate].
+  intros E; injection E as <- <-. eauto.
+Qed.
+
+Definition requested_prec (a : to_call) (t : tens) : prec :=
+  match c_dtype (parse a), t_kind t with
+  | Some d, KFloat | Some d, KComplex => d_prec d
+  | _, _ => t_prec t
+  end.
+
+Lemma target_prec_requested a t : target_prec (parse a) t = requested_prec a t.
+Proof. unfold target_prec, requested_prec, new_dtype. destruct (c_dtype (parse a)), (t_kind t); reflexivity. Qed.
+
+Lemma call_kind a h ns root r h' p x t :
+  wf_heap h -> root < length h -> call_top a h ns root = Some (r, h') ->
+  resolve h root p = Some x -> nth_error h x = Some (NTensor t) ->
+  exists z t', resolve h' r p = Some z /\ nth_error h' z = Some (NTensor t')
+               /\ t_kind t' = t_kind t /\ t_prec t' = requested_prec a t.
+Proof.
+  intros Hwf Hr Hc Hp Hx. destruct (call_top_inv _ _ _ _ _ _ Hc) as (st & Ht & <-).
+  destruct (to_top_structure _ _ _ _ _ _ _ _ _ Hwf Hr Ht Hp Hx) as (z & nd' & Hz & Hn & Hconv).
+  destruct nd'; simpl in Hconv; try contradiction. destruct Hconv as (Hk & _ & Hpr).
+  exists z, t0. rewrite <- target_prec_requested. auto.
+Qed.
+
+Lemma call_kind_module a h ns root r h' p x ts :
+  wf_heap h -> root < length h -> call_top a h ns root = Some (r, h') ->
+  resolve h root p = Some x -> nth_error h x = Some (NModule ts) ->
+  exists z ts', resolve h' r p = Some z /\ nth_error h' z = Some (NModule ts')
+    /\ Forall2 (fun t t' => t_kind t' = t_kind t /\ t_content t' = t_content t /\ t_prec t' = requested_prec a t) ts ts'.
+Proof.
+  intros Hwf Hr Hc Hp Hx. destruct (call_top_inv _ _ _ _ _ _ Hc) as (st & Ht & <-).
+  destruct (to_top_structure _ _ _ _ _ _ _ _ _ Hwf Hr Ht Hp Hx) as (z & nd' & Hz & Hn & Hconv).
+  destruct nd'; simpl in Hconv; try contradiction.
+  exists z, ts0. split; auto. split; auto. eapply Forall2_impl; [|exact Hconv].
+  intros t t' (Hk & Hcn & Hpr). rewrite <- target_prec_requested. auto.
+Qed.
+
+Lemma call_values a h ns root r h' p x nd :
+  wf_heap h -> root < length h -> call_top a h ns root = Some (r, h') ->
+  resolve h root p = Some x -> nth_error h x = Some nd ->
+  exists z nd', resolve h' r p = Some z /\ nth_error h' z = Some nd' /\ node_conv (parse a) nd nd'.
+Proof.
+  intros Hwf Hr Hc Hp Hx. destruct (call_top_inv _ _ _ _ _ _ Hc) as (st & Ht & <-).
+  eapply to_top_structure; eauto.
+Qed.
+
+Lemma call_alias a h ns root r h' p q x :
+  wf_heap h -> root < length h -> call_top a h ns root = Some (r, h') -> p <> [] -> q <> [] ->
+  resolve_g h root p = Some x -> resolve_g h root q = Some x ->
+  exists z, resolve h' r p = Some z /\ resolve h' r q = Some z.
+Proof.
+  intros Hwf Hr Hc Hp Hq Rp Rq. destruct (call_top_inv _ _ _ _ _ _ Hc) as (st & Ht & <-).
+  eapply to_top_alias; eauto.
+Qed.
+
+Definition storages (n : node) : list nat :=
+  match n with NTensor t => [t_storage t] | NModule ts => map t_storage ts | _ => [] end.
+
+Lemma heap_below_storages ns h i n s : heap_below ns h -> nth_error h i = Some n -> In s (storages n) -> s < ns.
+Proof.
+  intros Hb Hi Hs. unfold heap_below in Hb. rewrite Forall_forall in Hb. specialize (Hb n (nth_error_In _ _ Hi)).
+  destruct n; simpl in *; try contradiction.
+  - destruct Hs as [<-|[]]. exact Hb.
+  - apply in_map_iff in Hs as (t & <- & Hin). rewrite Forall_forall in Hb. exact (Hb t Hin).
+Qed.
+
+(* no storage of the result is a storage of the source; no mutable plain object / module / container is shared *)
+Lemma call_fresh a h ns root r h' p z n' :
+  wf_heap h -> root < length h -> heap_below ns h -> c_copy (parse a) = true ->
+  call_top a h ns root = Some (r, h') -> resolve h' r p = Some z -> nth_error h' z = Some n' ->
+  (forall i n s, nth_error h i = Some n -> In s (storages n) -> ~ In s (storages n'))
+  /\ (match n' with NPlain _ false | NTensor _ => True | _ => length h <= z end).
+Proof.
+  intros Hwf Hr Hb Hcp Hc Hp Hn. destruct (call_top_inv _ _ _ _ _ _ Hc) as (st & Ht & <-).
+  pose proof (to_top_fresh _ _ _ _ _ _ _ _ Hwf Hr Hcp Ht Hp) as Hf. rewrite Hn in Hf. split.
+  - intros i n s Hi Hs Hs'. pose proof (heap_below_storages _ _ _ _ _ Hb Hi Hs) as Hlt.
+    destruct n'; simpl in Hs'; try contradiction.
+    + destruct Hs' as [<-|[]]. destruct Hf. lia.
+    + destruct Hf as [Hf _]. apply in_map_iff in Hs' as (t & <- & Hin). rewrite Forall_forall in Hf.
+      specialize (Hf t Hin). lia.
+  - destruct n' as [?|?|?|?|? []]; try tauto; auto.
+Qed.
+
+Lemma call_source_untouched a h ns root r h' :
+  wf_heap h -> root < length h -> call_top a h ns root = Some (r, h') ->
+  forall i n, nth_error h i = Some n -> (c_copy (parse a) = true \/ forall ts, n <> NModule ts) -> nth_error h' i = Some n.
+Proof.
+  intros Hwf Hr Hc i n Hi Hor. destruct (call_top_inv _ _ _ _ _ _ Hc) as (st & Ht & <-).
+  eapply to_top_source_untouched; eauto.
 Qed.
